@@ -14,9 +14,13 @@ import (
 // Compile builds: Compile's make()-allocated local, a parameter whose every call site passes such a value,
 // or the scope field of an exprContext.
 func (p *Program) scopeProvenance(fd *ast.FuncDecl, e ast.Expr, depth int) (bool, string) {
+	return p.scopeProv(fd, e, depth, map[types.Object]bool{})
+}
+
+func (p *Program) scopeProv(fd *ast.FuncDecl, e ast.Expr, depth int, visiting map[types.Object]bool) (bool, string) {
 	pkg := p.PQL
 	info := pkg.TypesInfo
-	if depth > 4 {
+	if depth > 8 {
 		return false, "call chain too deep"
 	}
 	e = ast.Unparen(e)
@@ -27,21 +31,46 @@ func (p *Program) scopeProvenance(fd *ast.FuncDecl, e ast.Expr, depth int) (bool
 	if obj == nil {
 		return false, "not a variable: " + exprStr(e)
 	}
-	// local allocated with make in this function
+	if visiting[obj] {
+		return true, "passed on through a recursive call chain" // coinductive: the other call sites decide
+	}
+	visiting[obj] = true
+	defer delete(visiting, obj)
+	// local allocated in this function (make / map literal; := or var, alone or in a group)
 	madeHere := false
+	fresh := func(x ast.Expr) bool {
+		x = ast.Unparen(x)
+		if call, ok := x.(*ast.CallExpr); ok && IsBuiltinCall(info, call, "make") {
+			return true
+		}
+		if cl, ok := x.(*ast.CompositeLit); ok {
+			_, isMap := info.TypeOf(cl).Underlying().(*types.Map)
+			return isMap
+		}
+		return false
+	}
 	ast.Inspect(fd.Body, func(n ast.Node) bool {
-		if as, ok := n.(*ast.AssignStmt); ok && len(as.Lhs) == 1 && len(as.Rhs) == 1 && objOf(info, as.Lhs[0]) == types.Object(obj) {
-			if call, ok := as.Rhs[0].(*ast.CallExpr); ok && IsBuiltinCall(info, call, "make") {
-				madeHere = true
+		switch v := n.(type) {
+		case *ast.AssignStmt:
+			for i, l := range v.Lhs {
+				if objOf(info, l) == types.Object(obj) && len(v.Lhs) == len(v.Rhs) && fresh(v.Rhs[i]) {
+					madeHere = true
+				}
+			}
+		case *ast.ValueSpec:
+			for i, nm := range v.Names {
+				if info.Defs[nm] == types.Object(obj) && i < len(v.Values) && fresh(v.Values[i]) {
+					madeHere = true
+				}
 			}
 		}
 		return true
 	})
 	if madeHere {
-		if fd.Name.Name == "Compile" && fd.Recv != nil {
+		if declName(fd) == "Compile" && fd.Recv != nil {
 			return true, "the map allocated by Compile"
 		}
-		return false, "a map allocated in " + fd.Name.Name + ", not Compile's scope"
+		return false, "a map allocated in " + declName(fd) + ", not Compile's scope"
 	}
 	// parameter: all call sites
 	fn := FuncObj(pkg, fd)
@@ -71,7 +100,7 @@ func (p *Program) scopeProvenance(fd *ast.FuncDecl, e ast.Expr, depth int) (bool
 			if cfd == fd && objOf(info, call.Args[idx]) == types.Object(obj) {
 				return true // recursive call passing the parameter on
 			}
-			if ok2, w := p.scopeProvenance(cfd, call.Args[idx], depth+1); !ok2 {
+			if ok2, w := p.scopeProv(cfd, call.Args[idx], depth+1, visiting); !ok2 {
 				okAll, why = false, fmt.Sprintf("call in %s passes %s (%s)", cfd.Name.Name, exprStr(call.Args[idx]), w)
 			}
 			return true
